@@ -140,7 +140,13 @@ func (m *messageSenderImpl) messageSenderForPeer(ctx context.Context, p peer.ID)
 	m.smlk.Unlock()
 	verifYield("sender:registered")
 
-	if err := ms.prepOrInvalidate(ctx); err != nil {
+	if invalidated, err := ms.prepOrInvalidate(ctx); err != nil {
+		if !invalidated {
+			// We gave up waiting for the sender's lock. The sender is
+			// still valid and may be in use by another request, so it
+			// must stay in the map.
+			return nil, err
+		}
 		verifYield("sender:prep-failed")
 		m.smlk.Lock()
 		defer m.smlk.Unlock()
@@ -185,17 +191,21 @@ func (ms *peerMessageSender) invalidate() {
 	}
 }
 
-func (ms *peerMessageSender) prepOrInvalidate(ctx context.Context) error {
+// prepOrInvalidate prepares the sender for use. If that fails, the sender is
+// invalidated and must be removed from the strmap. If the sender's lock could
+// not be acquired before ctx expired, an error is returned but the sender is
+// left untouched (invalidated is false).
+func (ms *peerMessageSender) prepOrInvalidate(ctx context.Context) (invalidated bool, err error) {
 	if err := ms.lk.Lock(ctx); err != nil {
-		return err
+		return false, err
 	}
 	defer ms.lk.Unlock()
 
 	if err := ms.prep(ctx); err != nil {
 		ms.invalidate()
-		return err
+		return true, err
 	}
-	return nil
+	return false, nil
 }
 
 func (ms *peerMessageSender) prep(ctx context.Context) error {
